@@ -1381,15 +1381,15 @@ def evalExprF (r : Rec) (env : Env) (e : Expr) : M Val :=
     match l with
     | none => do
       let rv ← r.evalExpr env rgt
-      liftP (evalAdditive loc loc rgt.loc isPlus none rv)
+      liftP (locateP rgt.loc (evalAdditive loc loc rgt.loc isPlus none rv))
     | some le => do
       let lv ← r.evalExpr env le
       let rv ← r.evalExpr env rgt
-      liftP (evalAdditive loc le.loc rgt.loc isPlus (some lv) rv)
+      liftP (locateP rgt.loc (evalAdditive loc le.loc rgt.loc isPlus (some lv) rv))
   | .mul _ op l rgt => do
     let lv ← r.evalExpr env l
     let rv ← r.evalExpr env rgt
-    liftP (evalMultiplicative l.loc rgt.loc op lv rv)
+    liftP (locateP rgt.loc (evalMultiplicative l.loc rgt.loc op lv rv))
   | .cmp _ isNeq l rgt => do
     let lv ← r.evalExpr env l
     let rv ← r.evalExpr env rgt
@@ -1398,7 +1398,7 @@ def evalExprF (r : Rec) (env : Env) (e : Expr) : M Val :=
   | .numcmp _ op l rgt => do
     let lv ← r.evalExpr env l
     let rv ← r.evalExpr env rgt
-    liftP (evalNumericComparative l.loc op lv rv)
+    liftP (locateP rgt.loc (evalNumericComparative l.loc op lv rv))
   | .logic _ isAnd l rgt => do
     let lv ← r.evalExpr env l
     let lt ← liftOpt "isTrue" (Val.isTrue lv)
